@@ -132,6 +132,8 @@ static void bufs_switch(int idx)
 {
 	struct buf tmp;
 	bufs_save();
+	if (bufs[0].lb)			/* later changes are another undo step */
+		lbuf_modified(bufs[0].lb);
 	memcpy(&tmp, &bufs[idx], sizeof(tmp));
 	memmove(&bufs[1], &bufs[0], sizeof(tmp) * idx);
 	memcpy(&bufs[0], &tmp, sizeof(tmp));
